@@ -330,3 +330,13 @@ pub mod verif_hooks_kktsystem {
         k.work_conic.fill(v);
     }
 }
+
+// verification hook (C08, add-only, feature gated): read-only copy of the KKT values,
+// the P/A data maps and the LDL engine's permuted copy held by the private `kktsolver`.
+#[cfg(feature = "verif-hooks")]
+impl<T: FloatT> DefaultKKTSystem<T> {
+    /// see [`crate::verif_hooks::c08::KktState`]
+    pub fn verif_c08_kkt_state(&self) -> Option<crate::verif_hooks::c08::KktState<T>> {
+        self.kktsolver.verif_c08_kkt_state()
+    }
+}
